@@ -264,6 +264,7 @@ pub struct Flags {
     pub c02_nontrivial: u32,
     pub wrapped: bool,
     pub max_out: usize,
+    pub c05_checks: u32,
 }
 
 pub struct Eng {
@@ -370,6 +371,7 @@ impl Eng {
                 c02_nontrivial: 0,
                 wrapped: false,
                 max_out: 0,
+                c05_checks: 0,
             },
             c01_sigs: Vec::new(),
             c02_sigs: Vec::new(),
@@ -921,6 +923,7 @@ impl Eng {
                 self.pops += 1;
                 // C05: used_event re-armed
                 if self.cfg.event_idx {
+                    self.flags.c05_checks += 1;
                     let ue = with(|w| self.rq.used_event(&w.hal)).map_err(|m| v("C04", m))?;
                     if ue != self.pops as u16 {
                         return Err(v("C05", format!("after {} consumed completions used_event is {} (a spec-following device would not interrupt for the next one)", self.pops, ue)));
@@ -935,6 +938,7 @@ impl Eng {
     pub fn should_notify_check(&mut self) -> R {
         let sn = self.q().should_notify();
         if !self.cfg.event_idx {
+            self.flags.c05_checks += 1;
             let want = self.dev_flags & 1 == 0;
             if sn != want {
                 return Err(v("C05", format!("should_notify() = {} with device used.flags = {:#x} (event-index off)", sn, self.dev_flags)));
@@ -946,6 +950,7 @@ impl Eng {
     pub fn set_dev_notify(&mut self, e: bool) -> R {
         self.q().set_dev_notify(e);
         if !self.cfg.event_idx {
+            self.flags.c05_checks += 1;
             let f = with(|w| self.rq.avail_flags(&w.hal)).map_err(|m| v("C04", m))?;
             if f != (!e) as u16 {
                 return Err(v("C05", format!("set_dev_notify({}) but the device reads avail.flags = {:#x}", e, f)));
@@ -1212,6 +1217,9 @@ pub fn run_case(c: &QCase, prop: &'static str, st: &mut Stats) -> Result<(), Str
                     if (f.indirect_chain || f.big_chain) && f.refused && f.ooo_pop {
                         st.nontrivial(cs.get(), sample);
                     }
+                }
+                "C05" => {
+                    st.class_n("flag_and_used_event_checks", f.c05_checks as u64);
                 }
                 _ => {}
             }
